@@ -288,13 +288,26 @@ Definition resend_of (now : N) (g : N * bool * omsg) : N * cmd :=
   let '(i, v4, m) := g in
   (now + (if v4 then goodbye_repeat_v4 else goodbye_repeat_v6), UnregisterResend m i v4).
 
+(* fix d685fcf: after the goodbyes, every interface registry forgets the entries only this service
+   owns: probing, active and name_changes under its registered full name and under the name it
+   currently has there (HashMap::remove = every entry with that key) *)
+Definition forget_name (n : bytes) (rg : registry) : registry :=
+  mkReg (filter (fun kv => negb (beq (fst kv) n)) (rg_probing rg))
+        (filter (fun kv => negb (beq (fst kv) n)) (rg_active rg))
+        (filter (fun kv => negb (beq (fst kv) n)) (rg_changes rg)).
+Definition forget_service (full : bytes) (rg : registry) : registry :=
+  let current := resolve_name rg full in forget_name current (forget_name full rg).
+Definition forget_regs (full : bytes) (regs : list (N * registry)) : list (N * registry) :=
+  map (fun kr => (fst kr, forget_service full (snd kr))) regs.
+
 Definition unregister (st : dstate) (name_lower ch : bytes) (now : N) : dstate * list out :=
   match aget name_lower (d_svcs st) with
   | None => (st, [OReply ch false])
   | Some s =>
     let gs := goodbyes_of st s in
     let rt := map (resend_of now) gs in
-    (mkD (d_intfs st) (d_regs st) (adel name_lower (d_svcs st)) (d_retrans st ++ rt) (d_mon st) (d_dead st) (d_os st) (d_sel st),
+    (mkD (d_intfs st) (forget_regs (s_full s) (d_regs st)) (adel name_lower (d_svcs st)) (d_retrans st ++ rt)
+         (d_mon st) (d_dead st) (d_os st) (d_sel st),
      map send_of gs ++ [OReply ch true])
   end.
 
